@@ -85,6 +85,7 @@ type Req struct {
 	WriteFailAt  int  `json:"wfail,omitempty"`     // k-th Write fails (1-based); 0 = never
 	WriteMode    int  `json:"wmode,omitempty"`     // 0: n=0,err  1: short write + err
 	LoadFailAt   int  `json:"lfail,omitempty"`     // k-th Load fails (1-based); 0 = never
+	LoadFailMode int  `json:"lfailmode,omitempty"` // 0: Load returns an error; 1: the template's reader fails half-way; 2: it fails at once
 	WantTree     bool `json:"tree,omitempty"`      // parse: return node positions
 	WantWrites   bool `json:"writes,omitempty"`    // record every Write
 	ParseOnly    bool `json:"parseonly,omitempty"` // exec op: only Env.Parse
